@@ -124,11 +124,13 @@ def main():
     distinct = 0
     for case in range(n):
         raw, expected, desc = build(rng)
-        for wrap in ("plain", "gz"):
+        cut = rng.randrange(1, max(2, len(raw)))
+        for wrap in ("plain", "gz", "gz-two-members", "gz-default-mode"):
             evals += 1
-            data = raw if wrap == "plain" else gzip.compress(raw)
+            # a gzip stream may consist of several members (RFC 1952 2.2); the standard reader concatenates them
+            data = raw if wrap == "plain" else (gzip.compress(raw[:cut]) + gzip.compress(raw[cut:]) if wrap == "gz-two-members" else gzip.compress(raw))
             try:
-                t = vmtar.open(fileobj=io.BytesIO(data), mode="r:*" if wrap == "gz" else "r:")
+                t = vmtar.open(fileobj=io.BytesIO(data)) if wrap == "gz-default-mode" else vmtar.open(fileobj=io.BytesIO(data), mode="r:" if wrap == "plain" else "r:*")
                 got = {}
                 for m in t:
                     if m.isdir():
@@ -150,7 +152,7 @@ def main():
         if expected:
             distinct += 1
     json.dump({"evaluations": evals, "distinct": distinct, "failures": fails[:5], "n_failures": len(fails),
-               "rule": "generated archives: 0-6 members (files of 1..4096 bytes, empty files, directories, long and non-ASCII names), visor members with data areas in shuffled order and arbitrary alignment / plain ustar, each plain and gzip-wrapped; oracle = the generated contents, and the stdlib reader for non-visor archives"}, sys.stdout)
+               "rule": "generated archives: 0-6 members (files of 1..4096 bytes, empty files, directories, long and non-ASCII names), visor members with data areas in shuffled order and arbitrary alignment / plain ustar, each plain, gzip-wrapped (explicit and default mode) and wrapped as a two-member gzip stream; oracle = the generated contents, and the stdlib reader for non-visor archives"}, sys.stdout)
 
 
 if __name__ == "__main__":
